@@ -1,2 +1,93 @@
+import Gopki.Lemmas.DerLemmas
+import Gopki.Lemmas.IntLemmas
 import Gopki.Model.Db
-import Gopki.Model.Hash
+import Gopki.Generated.Facts
+/-! # C02 — emitted certificates are canonical-DER, conformant X.509v3 structures -/
+namespace C02
+open Der Asn1 Gen Config
+
+/-- **the checker that is run on every certificate gopki really writes is sound**: whatever the strict
+    decoder accepts re-encodes to exactly the same bytes (decoding then re-encoding reproduces the block
+    byte for byte), for byte strings of any length -/
+theorem C02_reencode_identity (bs : Bytes) (t : Tlv) (h : X509.decodeDer bs = some t) : t.enc = bs :=
+  X509.decodeDer_sound bs t h
+
+/-- and it is complete: every well-formed value (low-tag form, consistent constructed bit, lengths below
+    2^64) is accepted and read back unchanged — in particular the model's certificate -/
+theorem C02_model_cert_decodable (t : Tlv) (h : t.wf = true) : X509.decodeDer t.enc = some t :=
+  X509.decodeDer_enc t h
+
+/-- signature AlgorithmIdentifier parameters: NULL for the four RSA PKCS#1 v1.5 algorithms, absent for
+    the four ECDSA ones (the whole table) -/
+theorem C02_algid_params :
+    ∀ alg ∈ List.range 8, ((sigAlgId alg).map fun a => (a.oid, a.params.map Tlv.enc)) =
+      (sigAlgTable[alg]?).map fun (o, k) => (o, if k = 0 then some [5, 0] else none) := by decide
+
+/-- inner and outer signature AlgorithmIdentifier are the same value unless the inner one is manipulated -/
+theorem C02_inner_eq_outer (ctx : Context) (iss : IssuerContext) (alg : Nat) (tbs : Tbs) (outer : AlgId) (k : PrivKey)
+    (hno : ctx.tbs.sigAlg = none) (h : signBody ctx iss alg = .ok (tbs, outer, k)) :
+    (tbs.sigAlg.map fun a => (a.oid, a.params.map Tlv.enc)) = some (outer.oid, outer.params.map Tlv.enc) := by
+  unfold signBody at h
+  split at h
+  · simp at h
+  · split at h
+    · simp at h
+    · split at h
+      · simp at h
+      · split at h
+        · simp at h
+        · simp only [Except.ok.injEq, Prod.mk.injEq] at h
+          obtain ⟨h1, h2, _⟩ := h
+          subst h1; subst h2
+          simp [hno]
+
+/-- the version is v3 (value 2) unless manipulated, through body construction and signing -/
+theorem C02_version_v3 (c : V1.CertificateContent) (prk : Option PrivKey) (req : Option Spki) (o : Oracle) (ctx : Context)
+    (hv : c.manipulations.version = none) (h : buildCertBody c prk req o = .ok ctx) : ctx.tbs.version = 2 := by
+  unfold buildCertBody at h
+  split at h
+  · simp at h
+  · simp only [Except.ok.injEq] at h
+    subst h
+    simp [hv]
+
+/-- a configured serial number is used as it is; otherwise the drawn one -/
+theorem C02_serial_source (c : V1.CertificateContent) (prk : Option PrivKey) (req : Option Spki) (o : Oracle) (ctx : Context)
+    (h : buildCertBody c prk req o = .ok ctx) :
+    ctx.tbs.serial = if c.serialNumber ≠ 0 then c.serialNumber else (o.serial : Int) := by
+  unfold buildCertBody at h
+  split at h
+  · simp at h
+  · simp only [Except.ok.injEq] at h
+    subst h
+    rfl
+
+/-- a serial number drawn below 2^159 (the regenerated `snMax`, see `C05.model_defaults_eq_facts`) is a
+    non-negative INTEGER of at most 20 content octets in canonical form -/
+theorem C02_serial_len (n : Nat) (h : n < 2 ^ Facts.snMaxBits) :
+    (intBytes (n : Int)).length ≤ 20 ∧ X509.intCanonical (intBytes (n : Int)) = true :=
+  ⟨natIntBytes_length_le_20 n h, natIntBytes_canonical n⟩
+
+/-- times: UTCTime exactly for the years 1950 … 2049, GeneralizedTime otherwise -/
+theorem C02_time_form (c : Civil) (t : Tlv) (h : tTime c = some t) :
+    (∃ body, t = .prim 0x17 body ∧ 1950 ≤ c.year ∧ c.year < 2050) ∨
+    (∃ body, t = .prim 0x18 body ∧ ¬ (1950 ≤ c.year ∧ c.year < 2050) ∧ 0 ≤ c.year ∧ c.year ≤ 9999) := by
+  unfold tTime at h
+  simp only at h
+  split at h
+  · rename_i hy
+    simp only [Option.some.injEq] at h
+    exact Or.inl ⟨_, h.symm, hy.1, hy.2⟩
+  · rename_i hy
+    split at h
+    · rename_i hy2
+      simp only [Option.some.injEq] at h
+      exact Or.inr ⟨_, h.symm, hy, hy2.1, hy2.2⟩
+    · simp at h
+
+/-- non-vacuity: a concrete certificate-shaped value is well-formed, hence decoded back -/
+example : X509.decodeDer (Tlv.cons 0x30 [.cons 0x30 [.cons 0xa0 [.prim 2 [2]], .prim 2 [5], .cons 0x30 [.prim 6 [42, 3]]], .cons 0x30 [.prim 6 [42, 3]], .prim 3 [0, 1, 2]]).enc
+    = some (Tlv.cons 0x30 [.cons 0x30 [.cons 0xa0 [.prim 2 [2]], .prim 2 [5], .cons 0x30 [.prim 6 [42, 3]]], .cons 0x30 [.prim 6 [42, 3]], .prim 3 [0, 1, 2]]) := by
+  apply X509.decodeDer_enc; decide
+
+end C02
